@@ -211,11 +211,19 @@ def run_shard(shard):
             if none_nodes:
                 variants.append((frozenset(), None, ords[0], "none"))  # consumed single outputs carry the value None
                 variants.append((frozenset(), None, ords[0], "tuple1"))  # ... or a 1-tuple / empty tuple (must not be unpacked)
+            variants.append((frozenset(), None, ords[0], "falsy"))  # defaults are None, bound values '' / (), run-time values 0
             for omit, select, order, none_variant in variants:
                 if True:
                     for runner in ("sync", "async"):
                         prog, provided = dag_program(shape, ext_src, out_default, order, is_async=(runner == "async"))
-                        if none_variant:
+                        if none_variant == "falsy":
+                            for sp in prog["nodes"]:
+                                sp["defaults"] = {q: None for q in sp.get("defaults", {})}
+                            if prog.get("bind"):
+                                prog["bind"] = {q: ("" if i % 2 == 0 else None) for i, q in enumerate(sorted(prog["bind"]))}
+                            provided = {q: 0 for q in provided}
+                            acc.counters["runs_with_falsy_sources"] += 1
+                        elif none_variant:
                             for jj, j in enumerate(none_nodes):
                                 prog["nodes"][j]["behav"] = {"const": None} if none_variant == "none" else {"const": [["one", j]] if jj % 2 == 0 else []}
                             acc.counters[f"runs_with_special_valued_outputs[{none_variant}]"] += 1
